@@ -3057,14 +3057,10 @@ func (p *Posix) PutObject(ctx context.Context, po s3response.PutObjectInput) (s3
 		versionID = ulid.Make().String()
 	}
 
-	// Before finaliazing the object creation remove
-	// null versionId object from versioning directory
-	// if it exists and the versioning status is Suspended
+	// with versioning Suspended the new object is the null version (an
+	// older null version in the versioning directory is removed once the
+	// new one has been published, see below)
 	if p.isBucketVersioningSuspended(vStatus) {
-		err = p.deleteNullVersionIdObject(*po.Bucket, *po.Key)
-		if err != nil {
-			return s3response.PutObjectOutput{}, err
-		}
 		versionID = nullVersionId
 	}
 
@@ -3141,6 +3137,16 @@ func (p *Posix) PutObject(ctx context.Context, po s3response.PutObjectInput) (s3
 	}
 	if err != nil {
 		return s3response.PutObjectOutput{}, s3err.GetAPIError(s3err.ErrExistingObjectIsDirectory)
+	}
+
+	// the new null version is in place: only now remove the null version
+	// it supersedes from the versioning directory (removing it first would
+	// lose it for good if the upload did not get this far)
+	if p.isBucketVersioningSuspended(vStatus) {
+		err = p.deleteNullVersionIdObject(*po.Bucket, *po.Key)
+		if err != nil {
+			return s3response.PutObjectOutput{}, err
+		}
 	}
 
 	// Set object tagging
